@@ -10,7 +10,7 @@ ENTRY = {
     "min_tags": {"rendered": 1, "junk": 1, "workers": 1},
     "manifest": {
         "category": "proof",
-        "text": "Lean theorems over the executable model of parse_cpulist (strictly sorted output for every input; output = values the loop pushed) and of workers_for (bounds for all work/pool), tied to the code by correspondence on generated cpulists and junk strings.",
+        "text": "Lean theorems, for every input string: the output of the parse_cpulist model is strictly sorted and is exactly the set denoted by the ranges/singletons of ANY rendering (any grouping, order, duplicates, Unicode whitespace, '+', leading zeros; junk parts contribute nothing; every string is covered by some rendering: C42_denotes, C42_canonical, C42_junk_ignored, C42_every_input_rendered); workers_for bounds proved over the definition regenerated from the Rust source on every run (translator), incl. that clamp cannot panic. The model is tied to the code by correspondence on generated cpulists and junk strings.",
         "design_ref": "DESIGN.md §6 C42",
         "level_note": "Trusted: Lean kernel; axioms propext/Classical.choice/Quot.sound; the hand-written model of parse_cpulist and of Rust's trim/split/parse (validated by the correspondence runs only); harness generators.",
         "technique": "Lean 4 proof over executable model + differential correspondence with the Rust code",
